@@ -604,7 +604,7 @@ func clip(s string, n int) string {
 
 // oracleBudget bounds the client calls of a whole resolution used in a
 // scenario: only roots that the sequential client resolves within it are used.
-const oracleBudget = 400
+const oracleBudget = 250
 
 // concurrentWorkload generates registries and scenarios and judges them.
 // scenarios is the number of scenarios per G; every scenario is run reps times
